@@ -9,11 +9,26 @@ let slot_of s = int_of_string (if starts_with s "h" then String.sub s 1 (String.
 
 let kind_of = function
   | "bdd" -> Model.KBdd | "bcdd" -> Model.KBcdd | "zbdd" -> Model.KZbdd
-  | "mtbdd" -> Model.KMtbdd | "tdd" -> Model.KTdd | k -> failwith ("kind " ^ k)
+  | "mtbdd" | "mtbddf" -> Model.KMtbdd | "tdd" -> Model.KTdd | k -> failwith ("kind " ^ k)
+
+(* MTBDD<F64> ("mtbddf"): terminal values are printed as the 16-digit hex bit pattern of the stored
+   float.  The value of a terminal is the pattern NORMALISED as [F64::from] does (every NaN ->
+   7ff8000000000000, -0.0 -> +0.0; coq/Num/F64.v [f64_norm]): two terminals that differ only in a NaN
+   payload or the sign of zero carry the same value, so that the structural audits (terms_unique_b,
+   canonicity over handle pairs) see them as duplicates. *)
+let f64_norm_hex (v : string) : string =
+  match (try Some (Z.of_string ("0x" ^ v)) with _ -> None) with
+  | None -> v
+  | Some x ->
+    let abs = Z.logand x (Z.of_string "0x7fffffffffffffff") in
+    if Z.gt abs (Z.of_string "0x7ff0000000000000") then "7ff8000000000000"
+    else if Z.equal x (Z.of_string "0x8000000000000000") then "0000000000000000"
+    else String.lowercase_ascii v
 
 (* terminal value codes *)
 let mt_codes : (string, int) Hashtbl.t = Hashtbl.create 16
 let term_code kname (v : string) : int =
+  let v = if kname = "mtbddf" then "f" ^ f64_norm_hex v else v in
   match kname, v with
   | "bdd", "False" -> 0 | "bdd", "True" -> 1
   | "bcdd", _ -> 1
